@@ -21,6 +21,8 @@ I, R, B = z3.IntSort(), z3.RealSort(), z3.BoolSort()
 DOT = z3.Function('dot_R', z3.ArraySort(I, R), z3.ArraySort(I, R), I, I, R)      # ghost: sum_{lo <= j < hi} a[j]*b[j]
 # ghost: cdot(a, M, c, lo, hi) = sum_{lo <= j < hi} a[j]*M[j][c]   (a row against column c of a matrix)
 CDOT = z3.Function('cdot_R', z3.ArraySort(I, R), z3.ArraySort(I, z3.ArraySort(I, R)), I, I, I, R)
+# ghost: cdoto(a, M, c, off, lo, hi) = sum_{lo <= j < hi} a[j]*M[off + j][c]   (the same against a window of rows starting at off)
+CDOTO = z3.Function('cdoto_R', z3.ArraySort(I, R), z3.ArraySort(I, z3.ArraySort(I, R)), I, I, I, I, R)
 
 
 class Unsupported(Exception):
@@ -235,10 +237,10 @@ def f_subst(f, pairs):
 
 # ------------------------------------------------------------------------------------------------
 class Obligation(object):
-    __slots__ = ('name', 'hyps', 'goal', 'kind', 'line')
+    __slots__ = ('name', 'hyps', 'goal', 'kind', 'line', 'npre')
 
     def __init__(self, name, hyps, goal, kind, line=0):
-        self.name, self.hyps, self.goal, self.kind, self.line = name, list(hyps), goal, kind, line
+        self.name, self.hyps, self.goal, self.kind, self.line, self.npre = name, list(hyps), goal, kind, line, 0
 
 
 def lemma_as_axiom(name, lc):
@@ -308,7 +310,9 @@ class Gen(object):
         if name.startswith('nonzero-divisor@') and getattr(self, 'zdiv_capture', None) is not None:
             self.zdiv_capture.append(goal)          # inside `try: <one statement> except ZeroDivisionError:` - a branch
             return
-        self.obls.append(Obligation(name, list(path.hyps) + list(extra), goal, kind, line))
+        ob = Obligation(name, list(path.hyps) + list(extra), goal, kind, line)
+        ob.npre = len(getattr(self, 'pre_hyps', ()) or ())       # declarations, axioms, lemmas and requires come first on every path
+        self.obls.append(ob)
 
     # ---------------------------------------------------------------- spec expressions
     def spec(self, txt, env, extra=None):
@@ -446,6 +450,9 @@ class Gen(object):
             if f == 'cdot':         # cdot(a, M, c, lo, hi) ghost
                 a_, m_ = ev(n.args[0]), ev(n.args[1])
                 return CDOT(a_.arr, m_.arr, ev(n.args[2]), ev(n.args[3]), ev(n.args[4]))
+            if f == 'cdoto':        # cdoto(a, M, c, off, lo, hi) ghost
+                a_, m_ = ev(n.args[0]), ev(n.args[1])
+                return CDOTO(a_.arr, m_.arr, ev(n.args[2]), ev(n.args[3]), ev(n.args[4]), ev(n.args[5]))
             if f == 'sum':          # sum(a, lo, hi) ghost
                 l = ev(n.args[0])
                 return self.sumfn(l)(l.arr, ev(n.args[1]), ev(n.args[2]))
